@@ -47,7 +47,7 @@ impl Check for C05 {
         let mut fs = FaultStats::default();
         let mut doc = cases::doc_opts_for(tier, &mut rng);
         doc.pay.max_len = doc.pay.max_len.min(if rng.chance(1, 20) { 70_000 } else { 200 });
-        let io = InputOpts { doc, faulted_pct: 40, truncated_pct: 5, random_pct: 20, soup_pct: 20, max_faults: 4 };
+        let io = InputOpts { doc, faulted_pct: 40, truncated_pct: 5, random_pct: 20, soup_pct: 20, max_faults: 4, mid_document_pct: 5 };
         let mut gi = cases::gen_input(&mut rng, &spec, &io, &mut fs);
         let mut deep_master: Option<u64> = None;
         if rng.chance(1, 400) {
